@@ -1,7 +1,7 @@
 (* Sums over lists in Q (setoid Qeq). Used by every Shapley proof. *)
 From Coq Require Import List Arith ZArith QArith Lia Bool Setoid Morphisms Permutation Lqa FinFun.
 Import ListNotations.
-Open Scope Q_scope.
+Local Open Scope Q_scope.
 
 
 Definition sumQ {A} (f : A -> Q) (l : list A) : Q := fold_right (fun a acc => f a + acc) 0 l.
